@@ -1,14 +1,17 @@
 import MqttVerif.Driver.Common
 import MqttVerif.Codec.Wf
 import MqttVerif.Codec.Abs
+import MqttVerif.Codec.AccDump
 import Std.Data.HashMap
 /-!
 Trace driver for the packet codecs (`T codec …`).
 
-`P <ver> <pw> <fh> <body> = ok <consumed> <size> <continuous> <buffers|~> <R1|R0> | err <E> | PANIC`
+`P <ver> <pw> <fh> <body> = ok <consumed> <size> <continuous> <buffers|~> <R1|R0> acc=<dump> | err <E> | PANIC`
   one call of a real parser; the model parser is run on the same input and compared
-  (outcome, error, consumed, size, re-encoding, verdict of re-parsing the encoding), and the
-  C04 monitors are evaluated on the implementation's answer.
+  (outcome, error, consumed, size, re-encoding, verdict of re-parsing the encoding, and the
+  FIELD VALUES: `acc=<dump>` is what the real packet's public accessors return, compared key by
+  key with `accDump` of the model's packet — `codec.fields.<kind>.<key>` / `C03 accessors@<kind>`),
+  and the C04 monitors are evaluated on the implementation's answer.
 `B <ver> <pw> <fh> <k=v…> = ok <size> <continuous> <buffers|~> ; <P-style result of parsing its own body> ; eq=<0|1> | err <E> | PANIC`
   one builder call; C02 monitors on the implementation's answer, model compared on the parse.
 `E …` harness-side exhaustive sweep summary (statistics only; offending cases come as `P` lines).
@@ -26,6 +29,7 @@ def CodecSt.tag (st : CodecSt) (k : String) : CodecSt :=
 /-- an implementation observation -/
 inductive ImplRes
   | ok (consumed size : Nat) (cont : List Nat) (bufsEq : Bool) (reparse : Option Bool)
+      (acc : Option String)        -- accessor dump (`acc=…`), absent in traces of the old format
   | err (e : String)
   | panic
 
@@ -38,8 +42,11 @@ def parseImplRes (ws : List String) : Option ImplRes :=
     let s ← s.toNat?
     let cont ← hexToBytes cont
     let beq ← (if bufs = "~" then some true else (hexToBytes bufs).map (· == cont))
-    let rp := match rest with | ["R1"] => some true | ["R0"] => some false | _ => none
-    pure (.ok c s cont beq rp)
+    let rp := match rest with | "R1" :: _ => some true | "R0" :: _ => some false | _ => none
+    let acc := match rest.find? (·.startsWith "acc=") with
+      | some w => some (w.drop 4).toString
+      | none => none
+    pure (.ok c s cont beq rp acc)
   | _ => none
 
 def parseHexByte (s : String) : Option Nat :=
@@ -72,7 +79,7 @@ def compareParse (st : CodecSt) (ln : Nat) (ver pw fh : Nat) (body : List Nat) (
     let r := if ¬ c04 then r else match ir with
       | .panic => r.viol s!"C04 no_panic@{kind}" s!"{loc}: the parser panicked"
       | .err _ => r
-      | .ok c s cont beq rp =>
+      | .ok c s cont beq rp _ =>
         let r := if c > body.length then r.viol s!"C04 consumed_le@{kind}" s!"{loc}: consumed {c} > {body.length}" else r
         let r := if s ≠ cont.length then r.viol s!"C04 size_eq@{kind}" s!"{loc}: size()={s} but the encoding {short cont} has {cont.length} bytes" else r
         let r := if ¬ beq then r.viol s!"C04 buffers@{kind}" s!"{loc}: to_buffers() differs from to_continuous_buffer()" else r
@@ -83,8 +90,25 @@ def compareParse (st : CodecSt) (ln : Nat) (ver pw fh : Nat) (body : List Nat) (
     | .err e, .err e' =>
       let st := st.tag s!"{kind}.err.{e'}"
       if e.name = e' then (st, r) else (st, r.mdiff s!"codec.parse.{kind}.error" s!"{loc}: error model={e.name} impl={e'}")
-    | .ok p c, .ok c' s' cont' _ rp' =>
+    | .ok p c, .ok c' s' cont' _ rp' acc' =>
       let st := st.tag s!"{kind}.ok"
+      -- C03 "…whose accessors return the same values": the field values the real packet's public
+      -- accessors return vs. the field values the model parser read from the same bytes
+      let (st, r) := match acc' with
+        | none => (st.tag "fields.absent", r)
+        | some ia =>
+          let st := st.tag "fields.checked"
+          let mf := accFields pw p
+          if Acc.render mf == ia then (st, r)
+          else if ia = "PANIC" then
+            let r := r.mdiff s!"codec.fields.{kind}.panic" s!"{loc}: an accessor of the accepted packet panicked; model fields {Acc.render mf}"
+            (st, r.viol s!"C03 accessors@{kind}" s!"{loc}: for these bytes the specification reads {Acc.render mf}; an accessor of the implementation's packet panicked")
+          else
+            let (key, mv, iv) := match Acc.firstDiff mf (Acc.unrender ia) with
+              | some d => d
+              | none => ("token", Acc.render mf, ia)
+            let r := r.mdiff s!"codec.fields.{kind}.{key}" s!"{loc}: field `{key}`: model={mv} impl accessor={iv}"
+            (st, r.viol s!"C03 accessors@{kind}" s!"{loc}: for these bytes the specification (the model parser, proved equal to WireSpec by C03_parse_spec_encoding / C03_encode_eq_spec) reads {key} = {mv}, the implementation's accessor returns {iv}")
       let enc := p.encode pw
       let r := if c ≠ c' then r.mdiff s!"codec.parse.{kind}.consumed" s!"{loc}: consumed model={c} impl={c'}" else r
       let r := if p.size ≠ s' then r.mdiff s!"codec.parse.{kind}.size" s!"{loc}: size model={p.size} impl={s'}" else r
@@ -111,7 +135,7 @@ def compareParse (st : CodecSt) (ln : Nat) (ver pw fh : Nat) (body : List Nat) (
       (st, r)
     | m, i =>
       let ms := match m with | .ok _ c => s!"ok consumed={c}" | .err e => s!"err {e.name}" | .panic s => s!"panic {s}"
-      let is := match i with | .ok c _ _ _ _ => s!"ok consumed={c}" | .err e => s!"err {e}" | .panic => "PANIC"
+      let is := match i with | .ok c _ _ _ _ _ => s!"ok consumed={c}" | .err e => s!"err {e}" | .panic => "PANIC"
       (st, r.mdiff s!"codec.parse.{kind}.outcome" s!"{loc}: model={ms} impl={is}")
 
 def codecP (st : CodecSt) (ln : Nat) (line : String) (r : Report) : CodecSt × Report :=
@@ -161,7 +185,7 @@ def codecB (st : CodecSt) (ln : Nat) (line : String) (r : Report) : CodecSt × R
                 let r := match ir with
                   | .panic => r.viol s!"C02 reparse@{kind}" s!"{loc}: parsing its own body panicked: {short cont}"
                   | .err e => r.viol s!"C02 reparse@{kind}" s!"{loc}: its own body is rejected ({e}): {short cont}"
-                  | .ok c _ cont2 _ _ =>
+                  | .ok c _ cont2 _ _ _ =>
                     let r := if c ≠ body.length then r.viol s!"C02 consumed@{kind}" s!"{loc}: parse consumed {c} of {body.length} body bytes: {short cont}" else r
                     let r := if cont2 ≠ cont then r.viol s!"C02 reparse@{kind}" s!"{loc}: parse(encode p) re-encodes to {short cont2}, not {short cont}" else r
                     if eqs.trimAscii.toString = "eq=0" ∧ cont2 = cont then
